@@ -73,7 +73,10 @@ Print Assumptions C04_parse_chunked.
    [req_ok] / [resp_ok] are the API preconditions of C05 (incl. the exclusions D43/D46); further hypotheses name the
    known findings: chunked framing needs HTTP/1.1 at the receiver (D47), a content coding goes with chunked framing,
    responses that must not have a body are excluded (the client ignores RFC 7230 3.3.3 rule 1: D50), the start line is
-   accepted by the start-line callee (D48, D49 live there), no list-valued fields, no trailer. *)
+   accepted by the start-line callee (D48, D49 live there), no list-valued fields, no trailer.
+   Responses: [v59] is the behaviour of prepare towards a content codec that an EARLIER use of the same message object left on the
+   Body (finding D59).  [resp_ok AsFound] requires that the Body carries a codec only if the Content-Encoding field is present;
+   [resp_ok Repaired] admits every codec state of the Body: after the repair the round trip holds for reused message objects. *)
 Theorem C04_request_roundtrip : forall (C : ccallees) (PC : callees), lsplit_clean C ->
   forall vc now q q' info content,
   req_ok q = true -> rd_no_crlf now = true -> q_prepare now q = Some q' ->
@@ -90,8 +93,8 @@ Theorem C04_request_roundtrip : forall (C : ccallees) (PC : callees), lsplit_cle
 Proof. exact request_roundtrip. Qed.
 Print Assumptions C04_request_roundtrip.
 Theorem C04_response_roundtrip : forall (C : ccallees) (PC : callees), lsplit_clean C ->
-  forall v29 vc now r r' info content,
-  resp_ok r = true -> rd_no_crlf now = true -> r_prepare C v29 now r = Some r' ->
+  forall v59 v29 vc now r r' info content,
+  resp_ok v59 r = true -> rd_no_crlf now = true -> r_prepare C v59 v29 now r = Some r' ->
   r_bodiless (r_code r) (r_rmethod r) = false ->
   no_list_fields (r_hdrs r') = true -> b_trailer (r_body r') = [] ->
   let line := StartLine.proto_compose (r_version r) ++ SP :: StartLine.print_dec (r_code r) ++ SP :: r_reason r in
@@ -106,6 +109,22 @@ Theorem C04_response_roundtrip : forall (C : ccallees) (PC : callees), lsplit_cl
       (init, [ {| m_line := line; m_hdrs := delivered_for fr (r_hdrs r') content; m_body := content |} ], None).
 Proof. exact response_roundtrip. Qed.
 Print Assumptions C04_response_roundtrip.
+(* finding D59 on the tree as found: the precondition on the codec state cannot be dropped.  The Body of [D59_response] still carries
+   the codec of an earlier use, the header collection has no Content-Encoding: the composed message announces 6 octets and carries the
+   coded stream; the client machine (callees that accept everything and pass the body through) delivers the first 6 coded octets as
+   the body and keeps the rest as the start of a next message.  With the repaired prepare the content comes back. *)
+Theorem C04_stale_coding_refuted :
+  resp_ok Repaired D59_response = true /\ resp_ok AsFound D59_response = false /\
+  exists r', r_prepare C_mark AsFound Repaired D29_now D59_response = Some r' /\
+    exists st m, parse reference PC_plain Client init (fst (r_compose C_mark AsFound r')) = (st, [m], None) /\
+      m_body m = X "1f8b7365636f" /\ buf st = X "6e64".
+Proof. exact (conj (proj1 stale_coding_refuted) (conj (proj1 (proj2 stale_coding_refuted)) stale_coding_roundtrip_refuted)). Qed.
+Print Assumptions C04_stale_coding_refuted.
+Theorem C04_stale_coding_repaired_example :
+  exists r', r_prepare C_mark Repaired Repaired D29_now D59_response = Some r' /\
+    exists m, parse reference PC_plain Client init (fst (r_compose C_mark AsFound r')) = (init, [m], None) /\ m_body m = X "7365636f6e64".
+Proof. exact stale_coding_roundtrip_repaired_example. Qed.
+Print Assumptions C04_stale_coding_repaired_example.
 
 (* ... however the composed octets are cut into parse() calls.  Whatever ONE call on a whole wire delivers while ending idle (the
    two theorems above), every fragmentation of that wire delivers: on the reference machine always, and on the machine as
